@@ -552,7 +552,10 @@ impl<T: Storage> RawNode<T> {
 
         // Leader can send messages immediately to make replication concurrently.
         // For more details, check raft thesis 10.2.1.
-        rd.is_persisted_msg = raft.state != StateRole::Leader;
+        // A leader elected within this very Ready (a single voter whose own vote is the
+        // quorum) has not persisted its new term and vote yet: its messages wait for them.
+        rd.is_persisted_msg = raft.state != StateRole::Leader
+            || matches!(&rd.hs, Some(hs) if hs.term != self.prev_hs.term || hs.vote != self.prev_hs.vote);
         rd.light = self.gen_light_ready();
         self.records.push_back(rd_record);
         rd
